@@ -275,10 +275,13 @@ example :
 
 /-! ### Audit aC01: the other consumer entry points, and the codec's buffer views (codec/buffer.rs) -/
 
-/-- **Any consumer.**  `C01_decode_any_chunking` for a consumer that mixes `Stream::poll_next` and
-`Streaming::message()` in any order (a fresh `message()` future per call, dropped after a
-`Pending`): call by call it sees what `poll_next` alone would have seen, hence exactly the messages
-and then the end of the stream. -/
+/-- Transcription lemma: this is the pair of `runOps_polls` (= `C07_message_is_poll_next`: `Op.next` and `Op.message`
+are one and the same match arm of `Dec.stepOp`, so the first conjunct is true by construction of the model) and
+`C01_decode_any_chunking` VERBATIM (second conjunct) — it adds no proof obligation of its own.  It records how
+the two combine: in the model a consumer that mixes `Stream::poll_next` and `Streaming::message()` in any order
+(a fresh `message()` future per call, dropped after a `Pending`) sees call by call what `poll_next` alone sees,
+hence exactly the messages and then the end of the stream.  That the real `message()` is one `poll_next` is
+carried by the correspondence run (`xdec` cases on valid streams with `message()` consumers), not by this proof. -/
 theorem C01_decode_any_chunking_any_consumer (cd : Codec α) (cfg : DecCfg) (hgrpc : cfg.skipsBody = false)
     (laws : CodecLaws cd) (xs : List (Sent α)) (hxs : ∀ x ∈ xs, SentOk cd cfg x)
     (evs : List BodyEv) (hclean : CleanEvs evs = true)
@@ -346,14 +349,15 @@ private theorem dbuf_read_spec : ∀ (ops : List RdOp) (d : DBuf) (out : Bytes) 
         · rw [← h.2, hbuf2, List.drop_drop]
         · rw [← h.2, hlen2]; omega
 
-/-- **`DecodeBuf` is exactly the payload window.**  `decode_chunk` hands the message decoder a
-`DecodeBuf` over the stream buffer `buf` with `len` = the frame's declared length (`len ≤
-buf.length`: the `ReadBody` guard).  Whatever the decoder does with the `Buf` API — any read
-program of `chunk`/`advance` steps (which is what `get_u8`, `copy_to_slice`, `take`, … are) and
-`copy_to_bytes` calls — if it does not panic, the bytes it has read are a prefix of the payload
-`buf.take len` (never a byte of the frames behind it), the stream buffer has lost exactly those
+/-- **`DecodeBuf` is exactly the payload window** — a fact about the free-standing buffer model
+`Model/FramingBuf.lean` (`DBuf`), in which `Dec.readBody` does not occur; the link to the framing model is the
+separate theorem `C01_decode_buf_feeds_readBody` below.  `decode_chunk` hands the message decoder a
+`DecodeBuf` over the stream buffer `buf` with `len` = the frame's declared length.  Whatever the decoder does
+with the `Buf` API — any read program of `chunk`/`advance` steps (which is what `get_u8`, `copy_to_slice`,
+`take`, … are) and `copy_to_bytes` calls — if it does not panic, the bytes it has read are a prefix of the
+payload `buf.take len` (never a byte of the frames behind it), the stream buffer has lost exactly those
 bytes, and a decoder that reads to `remaining() = 0` has read exactly `buf.take len` and leaves
-`buf.drop len`: what `Dec.readBody` passes to `cd.de` and keeps. -/
+`buf.drop len`.  (No hypothesis `len ≤ buf.length` — the `ReadBody` guard — is needed for this.) -/
 theorem C01_decode_buf_is_the_payload_window (ops : List RdOp) (buf : Bytes) (len : Nat)
     (out : Bytes) (d' : DBuf) (h : DBuf.read ops ⟨buf, len⟩ = some (out, d')) :
     d'.len ≤ len ∧ out = buf.take (len - d'.len) ∧ d'.buf = buf.drop (len - d'.len) ∧
@@ -402,12 +406,15 @@ private theorem bmPutBuf_eq : ∀ (segs : List Bytes) (buf : Bytes), bmPutBuf bu
   | [], buf => by simp [bmPutBuf]
   | s :: segs, buf => by simp [bmPutBuf, bmPutSlice, bmPutBuf_eq segs]
 
-/-- **`EncodeBuf` only appends.**  Whatever the message encoder does with the `BufMut` API of its
-`EncodeBuf` — `put_slice`, `put` of any (non-contiguous) `Buf`, `put_bytes`, `chunk_mut` +
-`advance_mut`, `reserve`, in any order — the buffer afterwards is the buffer before (the frames
-already batched and the 5 reserved prefix bytes, untouched) followed by the concatenation of what
-was written: the message's serialization `cd.ser m` that `encodeItem` appends does not depend on
-which calls produced it. -/
+/-- Transcription lemma: every `WrOp.apply` is DEFINED as `buf ++ <its own bytes>` and `WrOp.bytes` is that same right
+operand, so this is "a left fold of appends is the append of the flattening" — it holds for any op type and
+says nothing about `encodeItem` or `cd.ser` (neither occurs in it).  What it records: in the buffer model
+(`Model/FramingBuf.lean`) a write program of `put_slice`, `put` of any (non-contiguous) `Buf`, `put_bytes`,
+`chunk_mut` + `advance_mut`, `reserve`, in any order, leaves the buffer before it untouched and followed by
+the concatenation of what was written.  That the real `EncodeBuf` / `BytesMut` only append is carried by the
+correspondence run (`xenc` cases: 8 write styles, predicted as the wrapped `enc` case).  The link to the framing
+model — what `encodeItem` appends is what ANY write program producing `cd.ser m` leaves — is
+`C01_encode_buf_feeds_encodeItem` below, which uses this lemma. -/
 theorem C01_encode_buf_appends : ∀ (ops : List WrOp) (buf : Bytes),
     writeAll buf ops = buf ++ (ops.map WrOp.bytes).flatten
   | [], buf => by simp [writeAll]
@@ -415,10 +422,111 @@ theorem C01_encode_buf_appends : ∀ (ops : List WrOp) (buf : Bytes),
     rw [writeAll, C01_encode_buf_appends ops]
     cases op <;> simp [WrOp.apply, WrOp.bytes, bmPutSlice, bmPutBuf_eq]
 
+/-! ### The two worlds joined: the buffer views and the framing model's `Dec.readBody` / `encodeItem`
+
+`Model/Framing.lean` abstracts the codec to `de : Bytes → Option α` / `ser : α → Bytes`.  The next three theorems
+mention both models: a decoder that is a read program on its `DecodeBuf` followed by a parse of what it read,
+and an encoder that is a write program on its `EncodeBuf`, give exactly the `Dec.readBody` / `encodeItem` of the
+framing model.  (The correspondence cases `rdec` / `xenc` are still predicted as the wrapped `dec` / `enc` case:
+these theorems are about the two MODELS.) -/
+
+/-- **What `Dec.readBody` passes to `cd.de` and keeps is what a decoder reading its `DecodeBuf` to the end gets
+and leaves** (identity-encoded frame).  State `s` with the whole payload buffered (`len ≤ s.buf.length`, the
+`ReadBody` guard): for EVERY read program on `DecodeBuf { buf: s.buf, len }` that does not panic and consumes
+its window (`remaining() = 0`, as `ProstDecoder` does — a decoder that stopped early would leave payload bytes
+in the stream buffer, which the framing model does not describe), `Dec.readBody` is: `cd.de` applied to the
+bytes that program read, and the stream buffer that program left. -/
+theorem C01_decode_buf_feeds_readBody (cd : Codec α) (s : DecSt) (len : Nat) (hlen : len ≤ s.buf.length)
+    (ops : List RdOp) (out : Bytes) (d' : DBuf)
+    (h : DBuf.read ops ⟨s.buf, len⟩ = some (out, d')) (h0 : d'.remaining = 0) :
+    Dec.readBody cd s len none =
+      (match cd.de out with
+       | none => ({ s with buf := d'.buf, ph := .body len none }, .fail ⟨cd.deErr, .codec⟩)
+       | some m => ({ s with buf := d'.buf, ph := .hdr }, .item m)) := by
+  obtain ⟨_, _, _, hfull⟩ := C01_decode_buf_is_the_payload_window ops s.buf len out d' h
+  obtain ⟨hout, hbuf⟩ := hfull h0
+  have hn : ¬ s.buf.length < len := by omega
+  simp only [Dec.readBody, hn, ↓reduceIte, hout, hbuf]
+  cases cd.de (List.take len s.buf) <;> rfl
+
+/-- …and for a compressed frame: `decode_chunk` decompresses the payload `s.buf.take len` into its scratch
+buffer, advances the stream buffer by `len`, and hands the decoder a `DecodeBuf` over the WHOLE scratch buffer
+(`DecodeBuf::new(&mut self.decompress_buf, decompressed_len)`).  For every read program on that view that
+consumes it, `Dec.readBody` is `cd.de` applied to what the program read; the stream buffer is `s.buf.drop len`
+whatever the decoder does. -/
+theorem C01_decode_buf_feeds_readBody_compressed (cd : Codec α) (s : DecSt) (len : Nat) (hlen : len ≤ s.buf.length)
+    (e : Enc) (raw : Bytes) (hz : cd.dz e (s.buf.take len) = some raw)
+    (ops : List RdOp) (out : Bytes) (d' : DBuf)
+    (h : DBuf.read ops ⟨raw, raw.length⟩ = some (out, d')) (h0 : d'.remaining = 0) :
+    d'.buf = [] ∧
+    Dec.readBody cd s len (some e) =
+      (match cd.de out with
+       | none => ({ s with buf := s.buf.drop len, ph := .body len (some e) }, .fail ⟨cd.deErr, .codec⟩)
+       | some m => ({ s with buf := s.buf.drop len, ph := .hdr }, .item m)) := by
+  obtain ⟨_, _, _, hfull⟩ := C01_decode_buf_is_the_payload_window ops raw raw.length out d' h
+  obtain ⟨hout, hbuf⟩ := hfull h0
+  have hn : ¬ s.buf.length < len := by omega
+  refine ⟨by simpa using hbuf, ?_⟩
+  simp only [Dec.readBody, hn, ↓reduceIte, hz, hout, List.take_length]
+  cases cd.de raw <;> rfl
+
+/-- `encode_item` written at the level of the buffer (codec/encode.rs): remember `offset = buf.len()`, reserve and
+skip the 5 header bytes (`advance_mut(HEADER_SIZE)`; their content is whatever — zeros here), let the encoder
+run its write program `ops` on an `EncodeBuf` over `buf` itself (identity) or over the cleared scratch buffer
+whose content `compress` then appends to `buf` (compressed), and let `finish_encoding` write flag and
+big-endian length of everything behind the header INTO the reserved bytes `buf[offset .. offset + 5]`. -/
+def encodeItemViaBuf (cd : Codec α) (cfg : EncCfg) (buf : Bytes) (ops : List WrOp) : Bytes :=
+  let offset := buf.length
+  let b1 := buf ++ List.replicate headerSize 0
+  let b2 := match cfg.comp with
+    | some e => b1 ++ cd.cz e (writeAll [] ops)
+    | none => writeAll b1 ops
+  let len := b2.length - offset - headerSize
+  b2.take offset ++ (flagByte cfg :: u32be len) ++ b2.drop (offset + headerSize)
+
+/-- **What `encodeItem` appends is what every write program producing the serialization leaves.**  For every
+write program `ops` on the `EncodeBuf` whose written bytes are `cd.ser m` — in whatever calls, segments and
+order — the buffer-level `encode_item` (`encodeItemViaBuf`: header reserved, program run, header patched in
+place) yields exactly the framing model's `encodeItem cd cfg buf m`: the batch buffer before it untouched, then
+flag, length, payload.  (Hypothesis `he`: the message is not refused — `Encoder::encode` succeeded and the size
+checks of `finish_encoding` passed; the refusals are `C06_encode_limit`.) -/
+theorem C01_encode_buf_feeds_encodeItem (cd : Codec α) (cfg : EncCfg) (buf : Bytes) (m : α) (ops : List WrOp)
+    (hops : (ops.map WrOp.bytes).flatten = cd.ser m) (he : encodeErr cd cfg m = none) :
+    encodeItem cd cfg buf m = .ok (encodeItemViaBuf cd cfg buf ops) := by
+  simp only [encodeItem, he, encodeItemViaBuf, frameOf, headerSize]
+  congr 1
+  cases hc : cfg.comp with
+  | none =>
+    simp only [Framing.payload, hc, C01_encode_buf_appends, hops]
+    have h1 : (buf ++ List.replicate 5 (0 : UInt8) ++ cd.ser m).take buf.length = buf := by
+      rw [List.append_assoc, List.take_left']; rfl
+    have h2 : (buf ++ List.replicate 5 (0 : UInt8) ++ cd.ser m).drop (buf.length + 5) = cd.ser m := by
+      rw [List.drop_left']; simp
+    have h3 : (buf ++ List.replicate 5 (0 : UInt8) ++ cd.ser m).length - buf.length - 5 = (cd.ser m).length := by
+      simp
+    rw [h1, h2, h3]; simp
+  | some e =>
+    simp only [Framing.payload, hc, C01_encode_buf_appends, hops, List.nil_append]
+    have h1 : (buf ++ List.replicate 5 (0 : UInt8) ++ cd.cz e (cd.ser m)).take buf.length = buf := by
+      rw [List.append_assoc, List.take_left']; rfl
+    have h2 : (buf ++ List.replicate 5 (0 : UInt8) ++ cd.cz e (cd.ser m)).drop (buf.length + 5) = cd.cz e (cd.ser m) := by
+      rw [List.drop_left']; simp
+    have h3 : (buf ++ List.replicate 5 (0 : UInt8) ++ cd.cz e (cd.ser m)).length - buf.length - 5
+        = (cd.cz e (cd.ser m)).length := by
+      simp
+    rw [h1, h2, h3]; simp
+
 /- Non-vacuity: two frames in one buffer; a decoder reading the first payload by `chunk`/`advance`
 and `copy_to_bytes` gets bytes 1 2 3 and leaves the second frame; a read past the window panics. -/
 example : DBuf.read [.chunkAdvance 2, .copyToBytes 1] ⟨[1, 2, 3, 0, 0, 0, 0, 1, 9], 3⟩ = some ([1, 2, 3], ⟨[0, 0, 0, 0, 1, 9], 0⟩) := by decide
 example : DBuf.read [.chunkAdvance 4] ⟨[1, 2, 3, 0, 0, 0, 0, 1, 9], 3⟩ = none := by decide
 example : writeAll [0, 0, 0, 0, 0] [.reserve 9, .putBuf [[1], [2, 3]], .putBytes 7 2, .chunkMutAdvance [4]] = [0, 0, 0, 0, 0, 1, 2, 3, 7, 7, 4] := by decide
+
+/- Non-vacuity of the bridge theorems: the read program above feeds `Dec.readBody` the payload [1, 2, 3] and
+leaves the second frame; three write styles producing [1, 2, 3] give the frame `encodeItem` appends. -/
+example : Dec.readBody idCodec ⟨[1, 2, 3, 0, 0, 0, 0, 1, 9], .hdr, none⟩ 3 none
+    = (⟨[0, 0, 0, 0, 1, 9], .hdr, none⟩, .item [1, 2, 3]) := rfl
+example : encodeItemViaBuf idCodec { comp := none, yieldThr := 0, maxSize := none, server := true } [7]
+      [.reserve 9, .putBuf [[1], [2]], .chunkMutAdvance [3]] = [7, 0, 0, 0, 0, 3, 1, 2, 3] := by decide
 
 end C01
